@@ -58,8 +58,8 @@ theorem struct_field {env : Env} {η : Hp} : ∀ {vs : List Val} {gs : List GVal
           exact struct_field i h2 ht.2 hi
 
 /-- the fields of a compiled struct literal evaluate to the declared names zipped with the values -/
-theorem fields_both {env : Env} {η : Hp} (P : Prog) {F : GFile} (ht : TyLink env F) {Γ : Ctx} {ρ : Sem.Env} {gρ : GEnv}
-    (hr : EnvRel env η Γ ρ gρ) : ∀ {args : List Imm} {fields : List (String × Ty)}, argsOK env Γ args (fields.map (·.2)) = true →
+theorem fields_both {env : Env} {η : Hp} {file : AFile} {G : List String} (P : Prog) {F : GFile} (ht : TyLink env F) {Γ : Ctx}
+    {ρ : Sem.Env} {gρ : GEnv} (hr : EnvRel env η Γ ρ gρ) (hfr : FnRel file G η gρ) : ∀ {args : List Imm} {fields : List (String × Ty)}, argsOK env file G Γ args (fields.map (·.2)) = true →
     ∃ vs gvs, ArgsRel env η vs gvs (fields.map (·.2)) ∧
       (∀ gw, EvFS F gρ gw (structFieldsOf fields (compileImms env args)) (.ok ((fields.map fun f => gid f.1).zip gvs) gw)) ∧
       (∀ n w, Sem.evalList n P ρ w (args.map Imm.toExpr) = .fail .fuel w ∨
@@ -82,7 +82,7 @@ theorem fields_both {env : Env} {η : Hp} (P : Prog) {F : GFile} (ht : TyLink en
     | cons f fs =>
       simp only [List.map_cons, argsOK, Bool.and_eq_true] at h
       obtain ⟨⟨ha, hta⟩, has⟩ := h
-      obtain ⟨v, gv, hs, hg, hrel, hty⟩ := imm_both P ht ha hr
+      obtain ⟨v, gv, hs, hg, hrel, hty⟩ := imm_both P ht ha hr hfr
       obtain ⟨vs, gvs, hrs, hgs, hss⟩ := ih has
       have ht := scalarEq_eq hta
       refine ⟨v :: vs, gv :: gvs, ⟨hrel, by show HasTy env η v f.2; rw [← ht]; exact hty, hrs⟩, fun gw => ?_, fun n w => ?_⟩
@@ -151,8 +151,8 @@ theorem slit_struct {env : Env} {F : GFile} (hS : structsClosed env = true) {sn 
 /-! ### enum values -/
 
 /-- the payload fields of a compiled variant literal evaluate to `_i, _{i+1}, …` zipped with the values -/
-theorem tfields_both {env : Env} {η : Hp} (P : Prog) {F : GFile} (ht : TyLink env F) {Γ : Ctx} {ρ : Sem.Env} {gρ : GEnv}
-    (hr : EnvRel env η Γ ρ gρ) : ∀ {args : List Imm} {tys : List Ty} (i : Nat), argsOK env Γ args tys = true →
+theorem tfields_both {env : Env} {η : Hp} {file : AFile} {G : List String} (P : Prog) {F : GFile} (ht : TyLink env F) {Γ : Ctx}
+    {ρ : Sem.Env} {gρ : GEnv} (hr : EnvRel env η Γ ρ gρ) (hfr : FnRel file G η gρ) : ∀ {args : List Imm} {tys : List Ty} (i : Nat), argsOK env file G Γ args tys = true →
     ∃ vs gvs, ArgsRel env η vs gvs tys ∧
       (∀ gw, EvFS F gρ gw (tupleFields i (compileImms env args)) (.ok ((fieldNames i tys.length).zip gvs) gw)) ∧
       (∀ n w, Sem.evalList n P ρ w (args.map Imm.toExpr) = .fail .fuel w ∨
@@ -175,7 +175,7 @@ theorem tfields_both {env : Env} {η : Hp} (P : Prog) {F : GFile} (ht : TyLink e
     | cons t ts =>
       simp only [argsOK, Bool.and_eq_true] at h
       obtain ⟨⟨ha, hta⟩, has⟩ := h
-      obtain ⟨v, gv, hs, hg, hrel, hty⟩ := imm_both P ht ha hr
+      obtain ⟨v, gv, hs, hg, hrel, hty⟩ := imm_both P ht ha hr hfr
       obtain ⟨vs, gvs, hrs, hgs, hss⟩ := ih (i + 1) has
       have htt := scalarEq_eq hta
       refine ⟨v :: vs, gv :: gvs, ⟨hrel, htt ▸ hty, hrs⟩, fun gw => ?_, fun n w => ?_⟩
